@@ -25,7 +25,7 @@ import itertools
 import random
 import signal
 
-from oracles.search_books import (Recorder, Ring, grid_gradient, judge_books, judge_bounds, judge_point,
+from oracles.search_books import (Recorder, Ring, gen_points, judge_books, judge_bounds, judge_point, make_gradient,
                                   make_objective, nontrivial, same, snap)
 from vf.core import Ctx, canon, digest, use_repo
 from vf.pool import pmap
@@ -85,67 +85,141 @@ def _scripted(script):
     return nxt
 
 
-def _call(case, rec, minimize):
-    """Build fresh callbacks from the JSON case and call the real solver.  Returns (Result, [start objects], bounds)."""
+# ---- history mode: argument objects that persist from one call to the next and are edited IN PLACE between calls
+def _env(shared):
+    """Per-history store of callbacks / rings / lists (a fresh dict per call outside history mode)."""
+    return {} if shared is None else shared.setdefault("env", {})
+
+
+def _keep_list(shared, slot, values):
+    """The same list object in every step of a history, its content replaced in place by this step's values."""
+    if shared is None:
+        return values
+    obj = shared.get(slot)
+    if obj is None:
+        shared[slot] = obj = values
+    else:
+        obj[:] = values
+    return obj
+
+
+def _keep_rows(shared, slot, rows):
+    """List of points: outer list and (for list rows) the inner lists keep their identity."""
+    if shared is None or rows is None:
+        return rows
+    obj = shared.setdefault(slot, [])
+    for i, r in enumerate(rows):
+        if i < len(obj) and isinstance(obj[i], list) and isinstance(r, list):
+            obj[i][:] = r
+        elif i < len(obj):
+            obj[i] = r
+        else:
+            obj.append(r)
+    del obj[len(rows):]
+    return obj
+
+
+def _ring(env, K, rep):
+    ring = env.get("ring")
+    if ring is None or ring.rep != rep:
+        ring = env["ring"] = Ring(K, rep)
+    ring.K = K
+    for i in range(K):
+        ring.cache.setdefault(i, [i])
+    return ring
+
+
+def _start(env, shared, ring, i):
+    if shared is not None and ring.rep == "list":  # the caller's own list object, edited in place between calls
+        obj = env.setdefault("start", [0])
+        obj[:] = [i % ring.K]
+        return obj
+    return ring.mk(i)
+
+
+def _points(spec, bounds):
+    return gen_points(spec, bounds) if isinstance(spec, dict) else spec
+
+
+def _call(case, rec, minimize, shared=None):
+    """Build the callbacks from the JSON case and call the real solver.  Returns (Result, [start objects], bounds).
+    shared: None = everything fresh; a dict = history mode (objects and callbacks live in it across calls)."""
     s = case["solver"]
     cfg = dict(case.get("cfg") or {})
+    for k, v in list(cfg.items()):
+        if isinstance(v, list):
+            cfg[k] = _keep_list(shared, "cfg:" + k, list(v))
     cb, interval = _stop(case.get("stop"))
     kw = dict(minimize=minimize, on_progress=cb, progress_interval=interval)
+    if case.get("bare"):  # option ladder: leave on_progress / progress_interval at their defaults
+        kw = dict(minimize=minimize)
+    if case.get("bare") == "all":  # ... and minimize too (only for minimize=True cases)
+        kw = {}
+    env = _env(shared)
 
     if s in ("anneal", "tabu_search", "lns", "alns", "evolve"):
-        ring = Ring(case["obj"]["K"], case.get("rep", "int"))
+        ring = _ring(env, case["obj"]["K"], case.get("rep", "int"))
 
     if s == "anneal":
         from solvor.anneal import anneal, linear_cooling, logarithmic_cooling
-        nxt = _scripted(case["script"])
+        env["nxt"] = _scripted(case["script"])
+        if "neighbors" not in env:
+            def neighbors(sol):
+                step = env["nxt"]()
+                return sol if step == 0 else env["ring"].mk(Ring.idx(sol) + step)  # step 0: the very same object back
 
-        def neighbors(sol):
-            step = nxt()
-            return sol if step == 0 else ring.mk(Ring.idx(sol) + step)  # step 0: the very same object back
-
-        c = cfg.pop("cooling", 0.9995)
-        if c == "linear":
-            c = linear_cooling()
-        elif c == "log":
-            c = logarithmic_cooling(1.0)
-        elif c == "const":
-            c = lambda t0, it, mx: t0  # noqa: E731  user schedule
-        start = ring.mk(case["start"])
-        return anneal(start, rec, neighbors, cooling=c, **cfg, **kw), [start], None
+            env["neighbors"] = neighbors
+        if "cooling" in cfg:
+            c = cfg.pop("cooling")
+            if c == "linear":
+                c = linear_cooling()
+            elif c == "log":
+                c = logarithmic_cooling(1.0)
+            elif c == "const":
+                c = env.setdefault("const", lambda t0, it, mx: t0)  # user schedule
+            cfg["cooling"] = c
+        start = _start(env, shared, ring, case["start"])
+        return anneal(start, rec, env["neighbors"], **cfg, **kw), [start], None
 
     if s == "tabu_search":
         from solvor.tabu import tabu_search
-        mbs, label = case["moves"], case.get("label", "step")
+        env["mbs"], env["label"] = case["moves"], case.get("label", "step")
+        if "neighbors" not in env:
+            def neighbors(sol):
+                i = Ring.idx(sol)
+                ring, mbs, label = env["ring"], env["mbs"], env["label"]
+                out = []
+                for step in mbs[i % len(mbs)]:
+                    mv = step if label == "step" else ((i + step) % ring.K if label == "target" else (i, step))
+                    out.append((mv, sol if step == 0 else ring.mk(i + step)))
+                return out
 
-        def neighbors(sol):
-            i = Ring.idx(sol)
-            out = []
-            for step in mbs[i % len(mbs)]:
-                mv = step if label == "step" else ((i + step) % ring.K if label == "target" else (i, step))
-                out.append((mv, sol if step == 0 else ring.mk(i + step)))
-            return out
-
-        start = ring.mk(case["start"])
-        return tabu_search(start, rec, neighbors, **cfg, **kw), [start], None
+            env["neighbors"] = neighbors
+        start = _start(env, shared, ring, case["start"])
+        return tabu_search(start, rec, env["neighbors"], **cfg, **kw), [start], None
 
     if s == "lns":
         from solvor.lns import lns
-        nxt = _scripted(case["script"])
-        dk, rk = case.get("destroy", "copy"), case.get("repair", "script")
+        env["nxt"] = _scripted(case["script"])
+        env["dk"], env["rk"], env["script"] = case.get("destroy", "copy"), case.get("repair", "script"), case["script"]
+        if "destroy" not in env:
+            def destroy(sol, rng):
+                return sol if env["dk"] == "same" else [Ring.idx(sol)]  # "copy": a fresh partial solution
 
-        def destroy(sol, rng):
-            return sol if dk == "same" else [Ring.idx(sol)]  # "copy": a fresh partial solution
+            def repair(partial, rng):
+                ring, rk = env["ring"], env["rk"]
+                step = env["nxt"]() if rk != "rng" else rng.choice(env["script"])
+                j = Ring.idx(partial) + step
+                if rk == "inplace" and env["dk"] == "copy" and ring.rep == "list":
+                    partial[0] = j % ring.K  # completes the fresh partial in place
+                    return partial
+                return ring.mk(j)
 
-        def repair(partial, rng):
-            step = nxt() if rk != "rng" else rng.choice(case["script"])
-            j = Ring.idx(partial) + step
-            if rk == "inplace" and dk == "copy" and ring.rep == "list":
-                partial[0] = j % ring.K  # completes the fresh partial in place
-                return partial
-            return ring.mk(j)
-
-        start = ring.mk(case["start"])
-        return lns(start, rec, destroy, repair, accept=_accept(case["accept"]), **cfg, **kw), [start], None
+            env["destroy"], env["repair"] = destroy, repair
+        start = _start(env, shared, ring, case["start"])
+        acc = case["accept"]
+        acc = env.setdefault("acc:" + canon(acc), _accept(acc)) if isinstance(acc, dict) else acc
+        return lns(start, rec, env["destroy"], env["repair"], accept=acc, **cfg, **kw), [start], None
 
     if s == "alns":
         from solvor.lns import alns
@@ -155,77 +229,90 @@ def _call(case, rec, minimize):
 
         def mk_r(b):
             if b == "rng":
-                return lambda partial, rng: ring.mk(rng.randrange(ring.K))
-            return lambda partial, rng: ring.mk(partial[0] + b)
+                return lambda partial, rng: env["ring"].mk(rng.randrange(env["ring"].K))
+            return lambda partial, rng: env["ring"].mk(partial[0] + b)
 
-        start = ring.mk(case["start"])
-        return alns(start, rec, [mk_d(a) for a in case["destroy_ops"]], [mk_r(b) for b in case["repair_ops"]],
-                    accept=_accept(case["accept"]), **cfg, **kw), [start], None
+        dops = _keep_list(shared, "dops", [env.setdefault(("d", a), mk_d(a)) for a in case["destroy_ops"]])
+        rops = _keep_list(shared, "rops", [env.setdefault(("r", b), mk_r(b)) for b in case["repair_ops"]])
+        start = _start(env, shared, ring, case["start"])
+        acc = case["accept"]
+        acc = env.setdefault("acc:" + canon(acc), _accept(acc)) if isinstance(acc, dict) else acc
+        extra = {} if acc is None else {"accept": acc}  # None: the library default
+        return alns(start, rec, dops, rops, **extra, **cfg, **kw), [start], None
 
     if s == "evolve":
         from solvor.genetic import evolve
-        nxt = _scripted(case.get("script") or [1])
-        ck, mk_ = case["crossover"], case["mutate"]
+        env["nxt"] = _scripted(case.get("script") or [1])
+        env["ck"], env["mk"] = case["crossover"], case["mutate"]
+        if "crossover" not in env:
+            def crossover(a, b):
+                ck, ring = env["ck"], env["ring"]
+                if ck == "first":
+                    return a  # shared with the population
+                if ck == "second":
+                    return b
+                ia, ib = Ring.idx(a), Ring.idx(b)
+                return ring.mk((ia + ib) // 2 if ck == "avg" else ia + ib)
 
-        def crossover(a, b):
-            if ck == "first":
-                return a  # shared with the population
-            if ck == "second":
-                return b
-            ia, ib = Ring.idx(a), Ring.idx(b)
-            return ring.mk((ia + ib) // 2 if ck == "avg" else ia + ib)
+            def mutate(c):
+                mk_, ring = env["mk"], env["ring"]
+                if mk_ == "same":
+                    return c
+                if mk_ == "inplace" and ring.rep == "list" and env["ck"] in ("avg", "sum"):
+                    c[0] = (c[0] + env["nxt"]()) % ring.K  # child is a fresh list here
+                    return c
+                return ring.mk(Ring.idx(c) + (1 if mk_ == "inc" else env["nxt"]()))
 
-        def mutate(c):
-            if mk_ == "same":
-                return c
-            if mk_ == "inplace" and ring.rep == "list" and ck in ("avg", "sum"):
-                c[0] = (c[0] + nxt()) % ring.K  # child is a fresh list here
-                return c
-            return ring.mk(Ring.idx(c) + (1 if mk_ == "inc" else nxt()))
-
-        pop = [ring.mk(i) for i in case["population"]]
-        return evolve(rec, pop, crossover, mutate, **cfg, **kw), pop, None
+            env["crossover"], env["mutate"] = crossover, mutate
+        pop = _keep_list(shared, "population", [ring.mk(i) for i in case["population"]])
+        return evolve(rec, pop, env["crossover"], env["mutate"], **cfg, **kw), list(pop), None
 
     # ---- continuous
     def inside(p, bounds):
         return all(lo <= p[i] <= hi for i, (lo, hi) in enumerate(bounds))
 
+    def rows(init):
+        return None if init is None else [tuple(p) if case.get("tuples") else list(p) for p in init]
+
     if s == "differential_evolution":
         from solvor.differential_evolution import differential_evolution
-        bounds = [tuple(b) for b in case["bounds"]]
-        init = case.get("initial")
+        bounds = _keep_list(shared, "bounds", [tuple(b) for b in case["bounds"]])
+        init = _points(case.get("initial"), bounds)
         starts = [p for p in (init or [])[: max(cfg.get("population_size", 15), 4)] if inside(p, bounds)]
-        init_arg = None if init is None else [tuple(p) if case.get("tuples") else list(p) for p in init]
-        return differential_evolution(rec, bounds, initial_population=init_arg, **cfg, **kw), starts, bounds
+        init_arg = _keep_rows(shared, "initial", rows(init))
+        return differential_evolution(rec, bounds, initial_population=init_arg, **cfg, **kw), starts, list(bounds)
 
     if s == "particle_swarm":
         from solvor.particle_swarm import particle_swarm
-        bounds = [tuple(b) for b in case["bounds"]]
-        init = case.get("initial")
+        bounds = _keep_list(shared, "bounds", [tuple(b) for b in case["bounds"]])
+        init = _points(case.get("initial"), bounds)
         starts = [p for p in (init or [])[: cfg.get("n_particles", 30)] if inside(p, bounds)]
-        init_arg = None if init is None else [tuple(p) if case.get("tuples") else list(p) for p in init]
-        return particle_swarm(rec, bounds, initial_positions=init_arg, **cfg, **kw), starts, bounds
+        init_arg = _keep_rows(shared, "initial", rows(init))
+        return particle_swarm(rec, bounds, initial_positions=init_arg, **cfg, **kw), starts, list(bounds)
 
     if s == "nelder_mead":
         from solvor.nelder_mead import nelder_mead
-        x0 = tuple(case["x0"]) if case.get("tuples") else list(case["x0"])
+        x0 = tuple(case["x0"]) if case.get("tuples") else _keep_list(shared, "x0", list(case["x0"]))
         return nelder_mead(rec, x0, **cfg, **kw), [list(case["x0"])], None
 
     if s == "bayesian_opt":
         from solvor.bayesian import bayesian_opt
-        bounds = [tuple(b) for b in case["bounds"]]
-        return bayesian_opt(rec, bounds, **cfg, **kw), [], bounds
+        bounds = _keep_list(shared, "bounds", [tuple(b) for b in case["bounds"]])
+        return bayesian_opt(rec, bounds, **cfg, **kw), [], list(bounds)
 
     if s == "powell":
         from solvor.powell import powell
         b = case.get("bounds")
-        return powell(rec, list(case["x0"]), bounds=None if b is None else [tuple(x) for x in b], **cfg, **kw), [], None
+        b = None if b is None else _keep_list(shared, "bounds", [tuple(x) for x in b])
+        return powell(rec, _keep_list(shared, "x0", list(case["x0"])), bounds=b, **cfg, **kw), [], None
 
     if s in ("bfgs", "lbfgs"):
         import importlib
         mod = importlib.import_module("solvor.bfgs")
-        g = grid_gradient(case["obj"], case.get("grad", "analytic"))  # gradient of the user's f, user's sign
-        return getattr(mod, s)(g, list(case["x0"]), objective_fn=rec, **cfg, **kw), [], None
+        env["g"] = make_gradient(case["obj"], case.get("grad", "analytic"))  # gradient of the user's f, user's sign
+        if "grad" not in env:
+            env["grad"] = lambda x: env["g"](x)
+        return getattr(mod, s)(env["grad"], _keep_list(shared, "x0", list(case["x0"])), objective_fn=rec, **cfg, **kw), [], None
 
     raise ValueError(s)
 
@@ -238,22 +325,30 @@ def _alarm(*_):
     raise _Timeout()
 
 
-def execute(case, mirror=False):
-    """One run.  mirror=True: objective negated and the sense flipped."""
+def execute(case, mirror=False, shared=None):
+    """One run.  mirror=True: objective negated and the sense flipped.  shared: history store (see _call)."""
     minimize = case["minimize"] != mirror
     pure = make_objective(case["obj"], negate=mirror)
-    rec = Recorder(pure)
-    old = signal.signal(signal.SIGALRM, _alarm)
-    signal.alarm(30)
+    if shared is None:
+        rec = Recorder(pure)
+    else:  # the same callable object in every call of the history; what it computes is edited in place
+        rec = shared.setdefault("rec", Recorder(pure))
+        rec.f, rec.calls = pure, []
+    cpu = case.get("cpu", 90)  # CPU seconds; >= 20x what the unchanged tree needs for this kind of case
+    old = signal.signal(signal.SIGVTALRM, _alarm)
+    signal.setitimer(signal.ITIMER_VIRTUAL, cpu)
     try:
-        res, starts, bounds = _call(case, rec, minimize)
+        try:
+            res, starts, bounds = _call(case, rec, minimize, shared)
+        finally:
+            signal.setitimer(signal.ITIMER_VIRTUAL, 0)
     except _Timeout:
-        return {"error": "no result within 30 s"}
+        return {"error": f"no result within {cpu} s of CPU time"}
     except Exception as e:  # noqa: BLE001
         return {"error": f"{type(e).__name__}: {e}"}
     finally:
-        signal.alarm(0)
-        signal.signal(signal.SIGALRM, old)
+        signal.setitimer(signal.ITIMER_VIRTUAL, 0)
+        signal.signal(signal.SIGVTALRM, old)
     return {
         "solution": snap(res.solution), "objective": res.objective, "iterations": res.iterations,
         "evaluations": res.evaluations, "status": int(res.status), "pure": pure(res.solution),
